@@ -115,10 +115,12 @@ Definition non_eq (i : list byte) : res tree :=
   match unescaped r1 with None => None | Some (v, r2) => Some (C Context id [octs attr; octs v], r2) end end end.
 
 Definition opt_tag (t i : list byte) : bool * list byte := match tag t i with Some r => (true, r) | None => (false, i) end.
-(* opt(terminated(tag(":dn"), peek(tag(":")))): the dn flag is taken only when a colon follows it (repair of F14) *)
+(* opt(terminated(tag_no_case(":dn"), peek(tag(":")))): the dn flag is taken only when a colon follows it (repair of F14); the keyword is
+   an ABNF literal of RFC 4515, hence matched without regard to case (repair of F37) *)
+Definition is_dn (c1 c2 : byte) : bool := (beq c1 "d"%byte || beq c1 "D"%byte) && (beq c2 "n"%byte || beq c2 "N"%byte).
 Definition opt_dn (i : list byte) : bool * list byte :=
-  match tag [":"; "d"; "n"]%byte i with
-  | Some ((c :: _) as r) => if beq c ":"%byte then (true, r) else (false, i)
+  match i with
+  | c0 :: c1 :: c2 :: ((c :: _) as r) => if beq c0 ":"%byte && is_dn c1 c2 && beq c ":"%byte then (true, r) else (false, i)
   | _ => (false, i) end.
 Definition opt_mrule (i : list byte) : option (list byte) * list byte :=   (* opt(preceded(tag(":"), attributetype)) *)
   match tag [":"%byte] i with
@@ -202,4 +204,6 @@ Example t_ext_mrule : enc "(cn:2.5.13.5:=J D)" = Some ([169; 19; 129; 8] ++ byte
 (* F14 (a rule name that merely starts with "dn" used to be rejected), after the repair: *)
 Example t_dnmatch_accepted : enc "(cn:dnMatch:=x)" = Some ([169; 16; 129; 7] ++ bytesN "dnMatch" ++ [130; 2] ++ bytesN "cn" ++ [131; 1] ++ bytesN "x")%list. Proof. vm_compute. reflexivity. Qed.
 Example t_dn_flag_and_rule : enc "(cn:dn:dnMatch:=x)" = Some ([169; 19; 129; 7] ++ bytesN "dnMatch" ++ [130; 2] ++ bytesN "cn" ++ [131; 1] ++ bytesN "x" ++ [132; 1; 255])%list. Proof. vm_compute. reflexivity. Qed.
+(* F37 (the flag was matched in lower case only: "(ou:DN:=People)" went out with matching rule "DN" and no dnAttributes, "(ou:DN:2.5.13.5:=x)" was refused), after the repair: *)
+Example t_dn_upper : enc "(ou:DN:=People)" = enc "(ou:dn:=People)" /\ enc "(ou:dN:2.5.13.5:=x)" = enc "(ou:dn:2.5.13.5:=x)" /\ enc "(:Dn:caseIgnoreMatch:=x)" = enc "(:dn:caseIgnoreMatch:=x)" /\ enc "(ou:DN:2.5.13.5:=x)" <> None. Proof. vm_compute. repeat split; discriminate. Qed.
 Example t_caseexact_accepted : enc "(cn:caseExactMatch:=x)" <> None. Proof. vm_compute. discriminate. Qed.
